@@ -604,13 +604,22 @@ def cover_refresh_edges(states, replayer, rng, max_init=None, stop=lambda: False
 # ====================================================================== C43 schema agreement
 SCHEMA_VERSIONS = {"A": uuid.UUID(int=0xA), "B": uuid.UUID(int=0xB), "C": uuid.UUID(int=0xC)}
 _IS_UP = {"up": True, "down": False, "none": None}
+TICK = 0.05            # seconds of virtual time per tick of ControlAgree.tla
+ROUND_TRIP = TICK      # virtual duration of one poll (the two schema-version queries): positive, as a real round trip
+POLL_INTERVAL_TICKS = 4                    # the driver's pause between polls, 0.2 s
+MAX_GAP = POLL_INTERVAL_TICKS + 1 + 1      # + one round trip + one tick of discretisation slack (constant MaxGap)
+
+
+def tick_of(seconds):
+    return int((seconds + 1e-9) / TICK)
 
 
 class AgreeHarness:
     """One simulated cluster (control node 0, known peers as FakeNodes and metadata hosts; unknown peers exist only
-    as rows of the schema-version query).  Every pair of schema-version queries (= one poll) is answered from the
-    next snapshot of the current walk; Host.is_up of the known peers is set to the snapshot's host states just
-    before the poll is answered."""
+    as rows of the schema-version query) on which the cluster state is scripted OVER VIRTUAL TIME: a timeline
+    [(from_tick, snapshot), ...].  Whenever the driver polls - on whatever schedule it likes - the two schema-version
+    queries are answered from the snapshot current at that instant (Host.is_up of the known peers is set to the
+    snapshot's host states first), and the round trip takes ROUND_TRIP of virtual time."""
 
     def __init__(self, kpeers, upeers, meta_enabled):
         self.kpeers, self.upeers = sorted(kpeers), sorted(upeers)
@@ -628,21 +637,30 @@ class AgreeHarness:
         self.cluster.executor.inline = False
         self.hosts = {host_no(h.address): h for h in self.cluster.metadata.all_hosts()}
         self.ctl.system_hook = self._hook
-        self.snaps = []
-        self.polls = []            # (virtual time, snapshot index) of every poll the driver made
+        self.timeline = []
+        self.polls = []            # (seconds since the start, snapshot) of every poll the driver made
         self.t0 = 0.0
+
+    def _current(self, now):
+        cur = self.timeline[0][1]
+        t = tick_of(now)
+        for frm, s in self.timeline:
+            if frm <= t:
+                cur = s
+        return cur
 
     def _hook(self, node, conn, f, req):
         q = req["query"]
         if "schema_version FROM system.peers" in q and not q.startswith("SELECT *"):
-            i = len(self.polls)
-            if i >= 64:
-                raise SimDeadlock("the agreement wait keeps polling (more than 64 polls)")
-            self.polls.append(self.world.clock.now - self.t0)
-            s = self.snaps[min(i, len(self.snaps) - 1)]
+            if len(self.polls) >= 200:
+                raise SimDeadlock("the agreement wait keeps polling (more than 200 polls)")
+            now = self.world.clock.now - self.t0
+            s = self._current(now)
+            self.polls.append((now, s))
             self._cur = s
             for n, p in enumerate(self.kpeers):
                 self.hosts[p].is_up = _IS_UP[s["st"][n]]
+            self.world.clock.advance(ROUND_TRIP)
             allp = self.kpeers + self.upeers
             v2 = "peers_v2" in q
             rows = []
@@ -662,41 +680,43 @@ class AgreeHarness:
             node.send(conn, f.version, f.stream, wire.RESULT, wire.body_rows(cols, rows, ks="system", table="peers"))
             return True
         if q.startswith("SELECT schema_version FROM system.local"):
-            s = getattr(self, "_cur", None) or self.snaps[0]
+            s = getattr(self, "_cur", None) or self._current(self.world.clock.now - self.t0)
             node.send(conn, f.version, f.stream, wire.RESULT, wire.body_rows(
                 [("schema_version", wire.T_UUID)], [[wire.c_uuid(SCHEMA_VERSIONS[s["local"]])]], ks="system", table="local"))
             return True
         return False
 
-    def _begin(self, wait_tenths, snaps):
-        self.cluster.max_schema_agreement_wait = wait_tenths / 10.0
-        self.snaps = list(snaps)
+    def _begin(self, wait_ticks, timeline):
+        self.cluster.max_schema_agreement_wait = wait_ticks * TICK
+        self.timeline = list(timeline)
         self.polls = []
         self._cur = None
+        self.world.clock.sleeps = 0
         self.t0 = self.world.clock.now
         del self.ctl.received[:]
 
-    def _end(self):
+    def _end(self, out):
         for p in self.kpeers:
             self.hosts[p].is_up = True
-        return [int(round(x * 10)) for x in self.polls]
-
-    def direct(self, wait_tenths, snaps):
-        """cluster.control_connection.wait_for_schema_agreement() -> {"verdict", "polls" (times in tenths)}."""
-        self._begin(wait_tenths, snaps)
-        out = {"error": None}
-        try:
-            out["verdict"] = self.cc.wait_for_schema_agreement()
-        except Exception as exc:
-            out["verdict"] = "raised"
-            out["error"] = "%s: %s" % (type(exc).__name__, str(exc)[:200])
-        out["polls"] = self._end()
+        out["polls"] = list(self.polls)
+        out["end"] = self.world.clock.now - self.t0
         return out
 
-    def ddl(self, wait_tenths, snaps):
-        """A CREATE TABLE request answered with a SCHEMA_CHANGE result -> {"future": is_schema_agreed, "polls"}."""
-        self._begin(wait_tenths, snaps)
-        out = {"error": None, "future": "unset"}
+    def direct(self, wait_ticks, timeline):
+        """cluster.control_connection.wait_for_schema_agreement() -> {"outcome", "polls", "end"}."""
+        self._begin(wait_ticks, timeline)
+        out = {"error": None}
+        try:
+            out["outcome"] = self.cc.wait_for_schema_agreement()
+        except Exception as exc:
+            out["outcome"] = "raised"
+            out["error"] = "%s: %s" % (type(exc).__name__, str(exc)[:200])
+        return self._end(out)
+
+    def ddl(self, wait_ticks, timeline):
+        """A CREATE TABLE request answered with a SCHEMA_CHANGE result -> {"outcome": is_schema_agreed, ...}."""
+        self._begin(wait_ticks, timeline)
+        out = {"error": None, "outcome": "unset"}
         try:
             fut = self.session.execute_async("CREATE TABLE ks.t (k int PRIMARY KEY)")
             pend = [(n, p) for n in self.nodes.values() for p in n.pending]
@@ -706,19 +726,18 @@ class AgreeHarness:
             node.respond(p, wire.RESULT, wire.body_schema_change(p.frame.version, "CREATED", "TABLE", "ks", "t"))
             self.cluster.executor.drain()            # runs refresh_schema_and_set_result
             if fut._final_result is ccluster._NOT_SET and fut._final_exception is None:
-                out["future"] = "unset"
+                out["outcome"] = "unset"
                 out["error"] = "the request never completed"
             else:
-                out["future"] = fut.is_schema_agreed
+                out["outcome"] = fut.is_schema_agreed
                 if fut._final_exception is not None:
                     out["error"] = repr(fut._final_exception)[:200]
         except tlc.MachineryError:
             raise
         except Exception as exc:
-            out["future"] = "raised"
+            out["outcome"] = "raised"
             out["error"] = "%s: %s" % (type(exc).__name__, str(exc)[:200])
-        out["polls"] = self._end()
-        return out
+        return self._end(out)
 
     def shutdown(self):
         try:
@@ -727,47 +746,47 @@ class AgreeHarness:
             pass
 
 
-_YESNO = {"yes": True, "no": False}
-
-
-def agree_run(harnesses, walk):
-    """Execute one complete behaviour of ControlAgree.tla (list of states from Init to a terminal state) on the real
-    objects; returns (got, diff)."""
-    init = walk[0]
-    polls = [s for s in walk[1:] if s["act"]["name"] == "Poll"]
-    final = walk[-1]
-    snaps = [s["snap"] for s in polls]
-    mode = init["mode"]
+def agree_trace(harnesses, mode, wait_ticks, timeline):
+    """Run the real wait once on a scripted timeline; returns (trace for Trace_ControlAgree.tla, raw observation).
+    The trace has no Finish event when the call raised / never completed (such a trace cannot be accepted)."""
     if mode == "direct":
-        got = harnesses["nometa"].direct(init["wait"], snaps)
+        got = harnesses["nometa"].direct(wait_ticks, timeline)
     else:
-        got = harnesses["meta" if mode == "ddl_meta" else "nometa"].ddl(init["wait"], snaps)
-    d = {}
-    exp_times = [s["at"] for s in polls]
-    if got["polls"] != exp_times:
-        d["polls"] = {"spec": exp_times, "code": got["polls"]}
-    if mode == "direct":
-        exp = _YESNO.get(final["verdict"])
-        if got["verdict"] is not exp:
-            d["verdict"] = {"spec": exp, "code": got["verdict"], "error": got["error"]}
+        got = harnesses["meta" if mode == "ddl_meta" else "nometa"].ddl(wait_ticks, timeline)
+    tr = [{"e": "Start", "wait": wait_ticks, "mode": mode}]
+    for now, s in got["polls"]:
+        tr.append({"e": "Poll", "at": tick_of(now), "snap": {"local": s["local"], "pv": list(s["pv"]), "st": list(s["st"])}})
+    if got["outcome"] is True or got["outcome"] is False:
+        tr.append({"e": "Finish", "v": "yes" if got["outcome"] else "no", "at": tick_of(got["end"])})
     else:
-        exp = _YESNO.get(final["future"])
-        if got["future"] is not exp:
-            d["is_schema_agreed"] = {"spec": exp, "code": got["future"], "error": got["error"]}
-    return got, d
+        tr.append({"e": "Broken", "what": str(got["outcome"]), "error": got["error"]})
+    return tr, got
 
 
-def agree_signature(walk, d):
-    """Stable class of a C43 divergence."""
-    mode = walk[0]["mode"]
-    if "polls" in d:
-        spec, code = d["polls"]["spec"], d["polls"]["code"]
-        if len(code) < len(spec):
-            return "agree:%s:stopped-polling-early" % mode
-        if len(code) > len(spec):
-            return "agree:%s:polled-after-%s" % (mode, "agreement" if walk[-1]["status"] == "agreed" or
-                                                 any(s["status"] == "agreed" for s in walk) else "deadline")
-        return "agree:%s:poll-times" % mode
-    if "verdict" in d:
-        return "agree:direct:verdict-%s-instead-of-%s" % (d["verdict"]["code"], d["verdict"]["spec"])
-    return "agree:%s:is_schema_agreed-%s-instead-of-%s" % (mode, d["is_schema_agreed"]["code"], d["is_schema_agreed"]["spec"])
+def _uniform(s):
+    """Labelling aid only (signatures of rejected traces); acceptance is TLC's decision."""
+    live = {s["local"]} | {v for v, st in zip(s["pv"], s["st"]) if st != "down"}
+    return len(live) == 1
+
+
+def agree_signature(trace, rejected_at):
+    """Stable class of a trace TLC rejected at event index `rejected_at` (0-based)."""
+    mode = trace[0]["mode"]
+    ev = trace[rejected_at]
+    polls = [e for e in trace[:rejected_at] if e["e"] == "Poll"]
+    if ev["e"] == "Broken":
+        return "agree:%s:%s" % (mode, ev["what"])
+    if ev["e"] == "Poll":
+        if polls and _uniform(polls[-1]["snap"]):
+            return "agree:%s:polled-after-agreement" % mode
+        return "agree:%s:stopped-polling-for-longer-than-the-poll-interval" % mode
+    if ev["e"] == "Finish":
+        what = "verdict" if mode == "direct" else "is_schema_agreed"
+        if ev["v"] == "yes":
+            if not polls:
+                return "agree:%s:agreement-reported-without-polling" % mode
+            return "agree:%s:%s-True-instead-of-False" % (mode, what)
+        if polls and _uniform(polls[-1]["snap"]):
+            return "agree:%s:%s-False-instead-of-True" % (mode, what)
+        return "agree:%s:gave-up-before-the-wait-elapsed" % mode
+    return "agree:%s:%s" % (mode, ev["e"])
